@@ -37,12 +37,12 @@ ASSUMPTIONS = ['the nested JSON rendering is the reference structure (its own co
 BUDGET = {'quick': 45, 'thorough': 600}
 QUOTA = {'quick': 45, 'thorough': 900}
 REQUIRED = {'quick': {'evaluations': 8000, 'path_queries_compared': 6000, 'bare_id_queries': 800,
-                      'subset_selector_queries': 500, 'attribute_step_queries': 500, 'replication_envelope_results': 800,
+                      'subset_selector_queries': 500, 'all_values_parallel_checks': 500, 'attribute_step_queries': 500, 'replication_envelope_results': 800,
                       'invariance_checks': 300, 'corpus_messages': 6, 'sliced_queries': 3000,
                       'malformed_queries_interleaved': 500, 'query_result_renderings': 1500,
                       'same_layout_different_bitmap_messages': 12, 'cli_query_runs': 30},
             'thorough': {'evaluations': 150000, 'path_queries_compared': 120000, 'bare_id_queries': 15000,
-                      'subset_selector_queries': 10000, 'attribute_step_queries': 10000,
+                      'subset_selector_queries': 10000, 'all_values_parallel_checks': 10000, 'attribute_step_queries': 10000,
                       'replication_envelope_results': 15000, 'invariance_checks': 5000, 'corpus_messages': 62,
                       'sliced_queries': 60000}}
 
@@ -215,7 +215,9 @@ def query_message(ctx, q, m, spec, origin, npaths):
         if all(r is None for r in refs):
             continue
         for sel, fn in [(None, lambda n: list(range(n)))] + rng.sample(SELECTORS, 3) + [('@[1:]', lambda n: list(range(n))[1:]),
-                                                                                     ('@[:-1]', lambda n: list(range(n))[:-1])]:
+                                                                                     ('@[:-1]', lambda n: list(range(n))[:-1]),
+                                                                                     ('@[::-1]', lambda n: list(range(n))[::-1]),
+                                                                                     ('@[-1:0:-1]', lambda n: list(range(n))[-1:0:-1])]:
             want_idx = fn(nsub)
             if sel == '@[1]' and nsub < 2:
                 continue
@@ -237,6 +239,20 @@ def query_message(ctx, q, m, spec, origin, npaths):
                 ctx.violate('subset-selector/%s/%s' % ('slice' if sel else 'none', mode),
                             'query %r returned subsets %r, expected %r with per-subset results of the path' % (full, got_idx, want_idx),
                             dict(spec, expr=full))
+                continue
+            # all_values() lists the per-subset results in the order of subset_indices(): the two are read side by side
+            try:
+                ctx.count('all_values_parallel_checks')
+                av = [norm(v) for v in qr.all_values()]
+                avf = [norm(v) for v in qr.all_values(flat=True)]
+                if av != got or avf != [flat(g) for g in got]:
+                    ctx.violate('subset-selector/all_values-not-parallel-to-subset_indices/%s' % mode,
+                                'query %r: subset_indices() is %r, all_values()%s is not the list of those subsets\' values in that order'
+                                % (full, list(got_idx), '' if av != got else '(flat=True)'), dict(spec, expr=full))
+                    continue
+            except Exception as ex:
+                ctx.violate('subset-selector/raises:%s/%s' % (type(ex).__name__, mode), 'all_values() of %r raised %s' % (full, type(ex).__name__),
+                            dict(spec, expr=full), exc=ex)
                 continue
             # the renderings of the result (what the `query` command prints) attribute values to the same subsets
             try:
